@@ -19,6 +19,10 @@ Command loops of `drv_c01` (core Lean only):
                     (Model/C01ExprJ `compileJ`: the full expression type incl. `&&` `||` `?:`; labels numbered from c0 (the value
                      `count()` returns next), c1 = the counter afterwards; lines are instructions, `label:` and jumps;
                      isx = `compileX` accepts the expression and gives the same (jump-free) code)
+  drv_c01 lvalue    `<t0,..> <off0,..> <toff0,..> <c0> <ret> | <root form>`     → `ok <type> <temporaries> <c1> <line;;…>` | `none`
+                    (Model/C01Lvalue `compileL`: an lvalue other than a variable read / assigned / compound-assigned at the root:
+                     root = `LOAD <t> <lval>` | `LSET <t> <lval> <expr>` | `LOP <op> <t> <lval> <expr>`;
+                     lval = `LV <i>` | `LM <d> <lval>` | `LI <i0> <esz> <expr>` | `LD <j>` | `LP <j> <esz> <expr>`)
   drv_c01 ptrseq    `<form> <index type> <element size> <offP> <offI> <tmp>`   → `<ins;;…>` | `none`
                     (pointer arithmetic of parse.c new_add / new_sub on a pointer variable at offP(%rbp) and an index (or second
                      pointer) at offI(%rbp): add | sub | diff | addassign | subassign | preinc | predec | postinc | postdec)
@@ -28,6 +32,7 @@ import ChibiVerif.Model.X86
 import ChibiVerif.Model.C01Codegen
 import ChibiVerif.Model.C01Expr
 import ChibiVerif.Model.C01ExprJ
+import ChibiVerif.Model.C01Lvalue
 
 namespace ChibiVerif.Driver.C01
 open ChibiVerif.Spec.IntSpec ChibiVerif.Gen.CommonType ChibiVerif.C01Codegen ChibiVerif.Asm ChibiVerif.X86J
@@ -337,6 +342,64 @@ def compileJLine (line : String) : String :=
     | _ => "bad env"
   | _ => "bad line"
 
+open ChibiVerif.C01 in
+/-- lvalue in prefix notation; fuel = number of tokens -/
+def parseLV : Nat → List String → Option (LVal × List String)
+  | 0, _ => none
+  | fuel + 1, toks =>
+    match toks with
+    | "LV" :: i :: rest => do some (.var (← i.toNat?), rest)
+    | "LD" :: j :: rest => do some (.deref (← j.toNat?), rest)
+    | "LM" :: d :: rest => do
+        let (l, r) ← parseLV fuel rest
+        some (.member l (← d.toInt?), r)
+    | "LI" :: i0 :: esz :: rest => do
+        let (e, r) ← parseE (rest.length + 1) rest
+        some (.index (← i0.toNat?) (← esz.toInt?) e, r)
+    | "LP" :: j :: esz :: rest => do
+        let (e, r) ← parseE (rest.length + 1) rest
+        some (.pindex (← j.toNat?) (← esz.toInt?) e, r)
+    | _ => none
+
+open ChibiVerif.C01 in
+def parseRoot (toks : List String) : Option RootL :=
+  match toks with
+  | "LOAD" :: t :: rest => do
+      let (l, r) ← parseLV (rest.length + 1) rest
+      if r.isEmpty then some (.load l (← ITy.ofString? t)) else none
+  | "LSET" :: t :: rest => do
+      let (l, r) ← parseLV (rest.length + 1) rest
+      let (e, r2) ← parseE (r.length + 1) r
+      if r2.isEmpty then some (.assign l (← ITy.ofString? t) e) else none
+  | "LOP" :: op :: t :: rest => do
+      let (l, r) ← parseLV (rest.length + 1) rest
+      let (e, r2) ← parseE (r.length + 1) r
+      if r2.isEmpty then some (.opassign (← binOpOf? op) l (← ITy.ofString? t) e) else none
+  | _ => none
+
+def lvalueLine (line : String) : String :=
+  match line.splitOn "|" with
+  | [hd, ex] =>
+    match words hd with
+    | [ts, os, tos, cs, rt] =>
+      let tys := (csv ts).map ITy.ofString?
+      let offs := (csv os).map String.toInt?
+      let toffs := (csv tos).map String.toInt?
+      if tys.any Option.isNone || offs.any Option.isNone || toffs.any Option.isNone || tys.length ≠ offs.length then "bad env" else
+      let tl := tys.filterMap id
+      let ol := offs.filterMap id
+      let tol := toffs.filterMap id
+      match parseRoot (words ex), cs.toNat?, ITy.ofString? rt with
+      | some r, some c0, some ret =>
+        match ChibiVerif.C01.compileL tl (fun i => ol.getD i 0) (fun k => tol.getD k 0) 0 c0 r with
+        | some (t, code, k, c1) =>
+            -- the function returns the value: `return` converts it to the return type
+            s!"ok {t.toString} {k} {c1} " ++ ";;".intercalate ((code ++ J (ChibiVerif.C01.castSeq t ret)).map jiText)
+        | none => "none"
+      | _, _, _ => "bad expr"
+    | _ => "bad env"
+  | _ => "bad line"
+
 def ptrSeqLine (line : String) : String :=
   match words line with
   | [form, ti, sz, op, oi, tmp] =>
@@ -378,9 +441,10 @@ def main (args : List String) : IO UInt32 := do
   | "compile" :: _ => loop stdin compileLine
   | "compilex" :: _ => loop stdin compileXLine
   | "compilej" :: _ => loop stdin compileJLine
+  | "lvalue" :: _ => loop stdin lvalueLine
   | "ptrseq" :: _ => loop stdin ptrSeqLine
   | _ =>
-    IO.eprintln "usage: drv_c01 eval|seq|x86exec|ctype|compile|compilex|compilej|ptrseq"
+    IO.eprintln "usage: drv_c01 eval|seq|x86exec|ctype|compile|compilex|compilej|lvalue|ptrseq"
     return 2
 
 end ChibiVerif.Driver.C01
